@@ -23,7 +23,7 @@ def floors(tier):
     return {'distinct_nontrivial': 5000 if tier == 'quick' else 80000, 'generic_add': 800, 'generic_sub': 800,
             'sub_only_b_blades': 300, 'involution_cases': 1500, 'twice_is_identity': 1000,
             'antiautomorphism_cases': 300, 'grade_selections': 1500, 'lazy_table_cases': 50, 'number_operand_sums': 1500,
-            'grade_selections_in_registered_function': 400}
+            'grade_selections_in_registered_function': 400, 'registered_involution_forms': 1500}
 
 
 def plan(tier, seed):
@@ -54,6 +54,8 @@ def plan(tier, seed):
         for c in gen.NAMED:
             U += u(c, 'random', 1, count=25, cap=10)
         U += u({'p': 2, 'q': 1, 'r': 0, 'start_index': 0}, 'random', 1, count=25, cap=8)
+        for c, w in zip(rng.sample(d2, 2) + rng.sample(d3, 2), ('wraps', 'identity', 'wraps', 'identity')):
+            U += u(dict(c, opts={'wrapper': w}), 'sparse', 1, count=40, cap=4, perm=0.6, min_size=2)
         nshards = 16
     else:
         for c in gen.sig_orderings(1, 1):
@@ -135,6 +137,27 @@ def one_pair(ctx, alg, iso, cfg, name, kx, ky, lazy):
             if bad:
                 ctx.violation('involution-applied-twice-not-identity', cid + ['twice'], config=cfg, op=op, keys_in=[list(kx)],
                               got=show_elem(mv_dict(rr)))
+    # the same involutions written inside a registered (compiled) function, infix and method spellings
+    cid = [name, 'registered-involutions', list(kx)]
+    if ctx.want(cid) and ctx.rng.random() < 0.2 and kx:
+        x_ = ops.value_mv(alg, kx, {k: gen.small_frac(ctx.rng, nonzero=True) for k in kx})
+        X_ = iso.mv_to_ref(x_)
+        forms = {'~x': ('~x', R.reverse(X_)), 'x.reverse()': ('x.reverse()', R.reverse(X_)), '-x': ('-x', R.neg(X_)),
+                 'x.involute()': ('x.involute()', R.involute(X_)), 'x.conjugate()': ('x.conjugate()', R.conjugate(X_)),
+                 '~(~x)': ('~(~x)', dict(X_))}
+        for label, (src, want_) in forms.items():
+            ns = {}
+            exec('def inv_' + str(abs(hash(label)) % 10 ** 6) + '(x):\n    return ' + src + '\n', ns)
+            fn = [v for k_, v in ns.items() if k_.startswith('inv_')][0]
+            st, r_ = ctx.guarded(20, lambda: alg.register(fn)(x_))
+            if st == 'ok':
+                ctx.count('registered_involution_forms')
+                if elem_diff(iso.mv_to_ref(r_), want_):
+                    ctx.violation('involution written inside a registered function is not blade-wise', cid + [label], config=cfg, form=label,
+                                  keys_in=[list(kx)], got=show_elem(iso.mv_to_ref(r_)), expected=show_elem(want_))
+            elif st == 'exc':
+                ctx.note_raised(r_, 'registered-involution')
+        ctx.case(cid)
     # (anti)automorphisms of the geometric product, on kingdon's own outputs
     cid = [name, 'automorphism', list(kx), list(ky)]
     if ctx.want(cid) and len(kx) * len(ky) <= 64 and ctx.rng.random() < 0.5:
